@@ -236,3 +236,13 @@ Theorem C15_restart_changes_validation_refuted :
     fst (fst (apply_tx c (g_no g) (g_d g) (reload c (g_d g)) t)) = ETooSmall.
 Proof. exact restart_changes_validation_refuted. Qed.
 Print Assumptions C15_restart_changes_validation_refuted.
+
+(* ================================================================== stored form of the ranking *)
+From Verif Require Import Gov.Serial.
+
+(** deserializeVoteList (serializeVoteList l) = l for 39-byte candidates and amounts shorter than
+    39 bytes: the stored ranking is read back exactly. *)
+Theorem C15_vote_list_round_trip : forall l,
+  Forall entry_wf l -> forall fuel, length (ser_list l) <= fuel -> deser_list fuel (ser_list l) = l.
+Proof. exact vote_list_round_trip. Qed.
+Print Assumptions C15_vote_list_round_trip.
